@@ -463,7 +463,11 @@ def _run_program(ctx, profile, monitors, rng, nprog):
         if ctx.out_of_time():
             break
         prefer = (getattr(gp, "meta", None) or {}).get("prefer_ops")
-        if prefer and k < 2 and rng.random() < 0.6:
+        seq = (getattr(gp, "meta", None) or {}).get("op_sequence")
+        if seq and len(sess.steps) < len(seq) and k < 3 * len(seq) and rng.random() < 0.75:
+            # multi-step templates: the k-th accepted step should be this primitive
+            step = random_step(sess, rng, {seq[len(sess.steps)]: 1.0})
+        elif prefer and k < 2 and rng.random() < 0.6:
             # templates name the primitives whose preconditions they were written to stress
             step = random_step(sess, rng, {o: 1.0 for o in prefer})
         else:
